@@ -102,8 +102,14 @@ def run_case(case):
     for dn in range(n):
         cur = SIM_START + timedelta(days=dn)
         comp.activate_emissions(cur, 0)
-        for (ed, c, trd) in events:
-            if ed == dn:
+        for ev in events:
+            (ed, c, trd) = ev[:3]
+            if ed == dn and len(ev) > 3 and ev[3] == 1:
+                # detection-only event (site-level sensor): update_detection_records on the
+                # detectable (hence active) emissions
+                for e_ in comp._active_emissions:
+                    e_.update_detection_records(company=f"c{c}", detect_date=cur)
+            elif ed == dn:
                 # Component.tag_emissions divides by len(active emissions): the real caller only
                 # tags components with detected (hence active) emissions
                 if comp._active_emissions:
@@ -144,7 +150,7 @@ def summary_line(em, sd):
 
 def case_line(case):
     (start, nrd, delay, repairable, intermittent, adur, idur, n, events) = case
-    evs = "[" + ",".join("[%d,%d,%d]" % e for e in events) + "]"
+    evs = "[" + ",".join("[" + ",".join(str(x) for x in e) + "]" for e in events) + "]"
     return "case %d %d %d %d %d %d %d %d %s" % (
         start, nrd, delay, int(repairable), int(intermittent), adur, idur, n, evs)
 
